@@ -6,7 +6,8 @@
 //!
 //! Line protocol (inputs only + eviction choice witness `e:`; see lean/SafeNet/Driver/BootCache.lean):
 //!   cfg P A E N | mk s mode | tick d | add s ma e | upd s ma b | clean s e | flush s b e | write s | load e |
-//!   lupd ma b e | start flags count args env o e h | file cache | corrupt k | craft ma | race seed writers iters
+//!   lupd ma b e | start flags count args env o e h | file cache | corrupt k | craft ma | race seed writers iters |
+//!   wfault s | ffault s b e h | fbegin s b z [e] | fend s b e h | pswap s t
 //! Outputs: `m=<cache> n=<peers>` (store memory), `f=<cache>|absent|garbage` (raw file, parsed by this
 //! harness's own JSON reader), `ok <cache>`/`err` (load_cache_data), `some <ma>`/`none`, `race ok`.
 use ant_bootstrap::{craft_valid_multiaddr, BootstrapCacheConfig, BootstrapCacheStore, PeersArgs};
@@ -27,9 +28,28 @@ static FAKE_NOW: AtomicI64 = AtomicI64::new(0);
 const BASE: i64 = 1_699_000_000;
 const T0: u64 = 1_000_000;
 
+// A gate on the clock: a thread that has armed `GATED` (slot + 1) stops at its FIRST wall-clock read until released.
+// Inside `sync_and_flush_to_disk` every `SystemTime::now()` lies after the cache file has been read
+// (load_cache_data: read, parse, THEN perform_cleanup -> now(); CacheData::sync ends with now()) and before the
+// atomic write, so a flush stopped there has done its load half and not yet its commit half — a real, deterministic
+// interleaving of the unmodified code with other stores' flushes. No source change.
+const MAXS: usize = 8;
+static GATE_PAUSED: [AtomicBool; MAXS] = [const { AtomicBool::new(false) }; MAXS];
+static GATE_RELEASE: [AtomicBool; MAXS] = [const { AtomicBool::new(false) }; MAXS];
+thread_local! {
+    static GATED: std::cell::Cell<usize> = const { std::cell::Cell::new(0) };
+}
+
 #[no_mangle]
 pub unsafe extern "C" fn clock_gettime(clk: libc::clockid_t, ts: *mut libc::timespec) -> libc::c_int {
     if clk == libc::CLOCK_REALTIME {
+        let g = GATED.try_with(|g| g.replace(0)).unwrap_or(0);
+        if g != 0 {
+            GATE_PAUSED[g - 1].store(true, Ordering::SeqCst);
+            while !GATE_RELEASE[g - 1].load(Ordering::SeqCst) {
+                libc::sched_yield();
+            }
+        }
         let v = FAKE_NOW.load(Ordering::SeqCst);
         if v != 0 {
             (*ts).tv_sec = v as libc::time_t;
@@ -221,6 +241,7 @@ fn cache_to_json(c: &Cache, now: u64) -> String {
     .to_string()
 }
 
+#[derive(Clone)]
 enum RawFile {
     Absent,
     Garbage,
@@ -303,9 +324,23 @@ struct Case {
     ties: bool,
     history: Vec<String>,
     used_odd: BTreeSet<u64>,
+    /// per store: a flush of it is in flight in its own thread, stopped between its load half and its commit half
+    inflight: Vec<Option<InFlight>>,
+    /// replay mode: clauses of open known findings are reported (the witness replay must show them)
+    replay: bool,
+}
+
+struct InFlight {
+    handle: std::thread::JoinHandle<(BootstrapCacheStore, bool)>,
+    with_cleanup: bool,
+    mem_before: Cache,
+    raw_at_begin: RawFile,
 }
 
 impl Case {
+    fn busy(&self, i: usize) -> bool {
+        self.inflight.get(i).map(|x| x.is_some()).unwrap_or(false)
+    }
     fn cfg(&self) -> BootstrapCacheConfig {
         BootstrapCacheConfig::empty()
             .with_cache_path(&self.path)
@@ -388,6 +423,7 @@ fn call_startup(args: &PeersArgs, config: &BootstrapCacheConfig, count: Option<u
             (if xs.is_empty() { "ok -".into() } else { format!("ok {}", xs.join("+")) }, v)
         }
         Ok(Some(Err(ant_bootstrap::Error::NoBootstrapPeersFound))) => ("err nopeers".into(), vec![]),
+        Ok(Some(Err(ant_bootstrap::Error::InvalidBootstrapCacheDir))) => ("err baddir".into(), vec![]),
         Ok(Some(Err(ant_bootstrap::Error::FailedToParseCacheData))) | Ok(Some(Err(ant_bootstrap::Error::Io(_)))) => ("err cache".into(), vec![]),
         Ok(Some(Err(e))) => (format!("err other:{e:?}").replace(' ', "_"), vec![]),
     }
@@ -475,12 +511,12 @@ fn is_clean(c: &Cache, case: &Case) -> bool {
 // executing one op line on the real code (returns the full op line incl. witness, and the output)
 // ---------------------------------------------------------------------------------------------
 fn strip_choice(ws: &[&str]) -> Vec<String> {
-    ws.iter().filter(|w| !w.starts_with("e:") && !w.starts_with("h:") && !w.starts_with("o:")).map(|s| s.to_string()).collect()
+    ws.iter().filter(|w| !w.starts_with("e:") && !w.starts_with("h:") && !w.starts_with("o:") && !w.starts_with("z:")).map(|s| s.to_string()).collect()
 }
 
 static RACE_FAILS: AtomicU64 = AtomicU64::new(0);
 
-fn run_race(dir: &PathBuf, seed: u64, writers: u64, iters: u64) -> (u64, u64, u64) {
+fn run_race(dir: &PathBuf, seed: u64, writers: u64, iters: u64) -> (u64, u64, u64, u64) {
     // several real stores flushing to one file from threads, while readers load it continuously
     let path = dir.join(format!("race-{seed}.json"));
     let _ = std::fs::remove_file(&path);
@@ -514,32 +550,55 @@ fn run_race(dir: &PathBuf, seed: u64, writers: u64, iters: u64) -> (u64, u64, u6
             let mut rng = Rng::new(seed * 1000 + w);
             let mut st = BootstrapCacheStore::new(cfg).expect("store");
             let mut errs = 0u64;
+            let mut flushed: BTreeSet<u64> = BTreeSet::new();
             for _ in 0..iters {
+                let mut batch = vec![];
                 for _ in 0..rng.range(1, 6) {
                     let p = rng.below(150);
                     st.add_addr(ma_from_tok(&format!("i4:{},u:{},q,p:{p}", rng.below(200), rng.below(5))).unwrap());
+                    batch.push(p);
                 }
                 let r = catch_unwind(AssertUnwindSafe(|| st.sync_and_flush_to_disk(rng.chance(3, 4)).is_ok()));
                 if !matches!(r, Ok(true)) {
                     errs += 1;
+                } else {
+                    flushed.extend(batch);
                 }
             }
-            errs
+            (errs, flushed)
         }));
     }
     let mut werrs = 0;
+    let mut flushed: BTreeSet<u64> = BTreeSet::new();
     for h in ws {
-        werrs += h.join().unwrap_or(1000);
+        match h.join() {
+            Ok((e, f)) => {
+                werrs += e;
+                flushed.extend(f);
+            }
+            Err(_) => werrs += 1000,
+        }
     }
     stop.store(true, Ordering::SeqCst);
     for h in readers {
         let _ = h.join();
     }
-    let final_ok = BootstrapCacheStore::load_cache_data(&cfg).is_ok();
+    // every peer below was flushed successfully by some writer (fresh, reliable, 150 peers < max_peers 200: nothing for
+    // clean-up to remove) and cleared from that writer's memory; one that is not in the final file was lost to an
+    // interleaved flush (open finding K-c18-interleaved-flush-loses-peers: counted, not failed, the schedule is random)
+    let final_data = BootstrapCacheStore::load_cache_data(&cfg);
+    let final_ok = final_data.is_ok();
+    let lost = match &final_data {
+        Ok(d) => {
+            let have: BTreeSet<u64> = d.peers.keys().map(peer_num).collect();
+            flushed.iter().filter(|p| !have.contains(p)).count() as u64
+        }
+        Err(_) => 0,
+    };
     let _ = std::fs::remove_file(&path);
     let b = bad.load(Ordering::SeqCst) + if final_ok { 0 } else { 1 };
     RACE_FAILS.fetch_add(b, Ordering::SeqCst);
-    (loads.load(Ordering::SeqCst), b, werrs)
+    (loads.load(Ordering::SeqCst), b, werrs, lost)
 }
 
 fn exec(case: &mut Case, dir: &PathBuf, line: &str, out: &mut Out) -> (String, String) {
@@ -566,6 +625,15 @@ fn exec(case: &mut Case, dir: &PathBuf, line: &str, out: &mut Out) -> (String, S
                 case.write_decoy();
                 case.stores = (0..n).map(|_| BootstrapCacheStore::new(case.cfg()).expect("store")).collect();
                 case.disabled = vec![false; n];
+                // a flush left in flight by a truncated history: let it finish before its slot is reused
+                for (i, f) in case.inflight.iter_mut().enumerate() {
+                    if let Some(f) = f.take() {
+                        GATE_RELEASE[i].store(true, Ordering::SeqCst);
+                        let _ = f.handle.join();
+                    }
+                }
+                let _ = std::fs::remove_file(&case.path);
+                case.inflight = (0..n).map(|_| None).collect();
                 "ok".into()
             }
             ["mk", s, mode] => {
@@ -573,20 +641,52 @@ fn exec(case: &mut Case, dir: &PathBuf, line: &str, out: &mut Out) -> (String, S
                 // (d = bootstrap_cache_dir override while the config's own path points at the decoy file,
                 //  c = no override, f = first, l = local, i = ignore_cache)
                 let i: usize = s.parse().unwrap();
+                if case.busy(i) {
+                    return "busy".into();
+                }
                 let has = |c: char| mode.contains(c);
+                // D = bootstrap_cache_dir names a regular file, U = a directory that cannot be created (under a regular file)
+                let dir_arg = if has('D') {
+                    Some(case.decoy.clone())
+                } else if has('U') {
+                    Some(case.decoy.join("sub"))
+                } else if has('d') {
+                    Some(case.dir.clone())
+                } else {
+                    None
+                };
+                let raw0 = read_raw(&case.path).show();
                 let store = if has('n') {
                     BootstrapCacheStore::new(case.cfg()).expect("store")
                 } else {
-                    let args = PeersArgs {
-                        first: has('f'),
-                        local: has('l'),
-                        ignore_cache: has('i'),
-                        bootstrap_cache_dir: if has('d') { Some(case.dir.clone()) } else { None },
-                        ..Default::default()
-                    };
-                    let config = if has('d') { case.cfg().with_cache_path(&case.decoy) } else { case.cfg() };
-                    BootstrapCacheStore::new_from_peers_args(&args, Some(config)).expect("store from peers args")
+                    let args = PeersArgs { first: has('f'), local: has('l'), ignore_cache: has('i'), bootstrap_cache_dir: dir_arg, ..Default::default() };
+                    let config = if has('d') || has('D') || has('U') { case.cfg().with_cache_path(&case.decoy) } else { case.cfg() };
+                    match BootstrapCacheStore::new_from_peers_args(&args, Some(config)) {
+                        Ok(s) => s,
+                        Err(e) => {
+                            // the caller (antnode main: `new_from_peers_args(..)?`) ends here; nothing may have been touched
+                            let raw1 = read_raw(&case.path).show();
+                            let expected = has('D') || has('U');
+                            orc_jobs.push(Box::new(move |o, _| {
+                                if !expected {
+                                    o.fail("store-built", "new_from_peers_args failed although the cache directory argument is usable".into());
+                                }
+                                if raw1 != raw0 {
+                                    o.fail("failed-build-touches-nothing", format!("a refused store construction changed the cache file from {raw0} to {raw1}"));
+                                }
+                            }));
+                            out.count(&format!("mk:{mode}:refused"));
+                            return match e {
+                                ant_bootstrap::Error::InvalidBootstrapCacheDir => "err baddir".into(),
+                                ant_bootstrap::Error::Io(_) => "err cache".into(),
+                                e => format!("err other:{e:?}").replace(' ', "_"),
+                            };
+                        }
+                    }
                 };
+                if has('D') || has('U') {
+                    orc_jobs.push(Box::new(move |o, _| o.fail("unusable-dir-refused", "new_from_peers_args accepted a bootstrap_cache_dir that is a regular file / cannot be created".into())));
+                }
                 let want_disabled = !has('n') && has('l');
                 let loc_ok = store.config().cache_file_path == case.path;
                 let dis_ok = store.config().disable_cache_writing == want_disabled;
@@ -617,6 +717,9 @@ fn exec(case: &mut Case, dir: &PathBuf, line: &str, out: &mut Out) -> (String, S
             }
             ["add", s, m] => {
                 let i: usize = s.parse().unwrap();
+                if case.busy(i) {
+                    return "busy".into();
+                }
                 let ma = ma_from_tok(m).expect("ma");
                 let before = keyset(&case.mem(i));
                 let touched = craft_valid_multiaddr(&ma, false).and_then(|c| c.iter().find_map(|p| if let Protocol::P2p(id) = p { Some(peer_num(&id)) } else { None }));
@@ -641,6 +744,9 @@ fn exec(case: &mut Case, dir: &PathBuf, line: &str, out: &mut Out) -> (String, S
             }
             ["upd", s, m, b] => {
                 let i: usize = s.parse().unwrap();
+                if case.busy(i) {
+                    return "busy".into();
+                }
                 let ma = ma_from_tok(m).expect("ma");
                 let before = case.mem(i);
                 case.stores[i].update_addr_status(&ma, *b != "0");
@@ -650,6 +756,9 @@ fn exec(case: &mut Case, dir: &PathBuf, line: &str, out: &mut Out) -> (String, S
             }
             ["clean", s] => {
                 let i: usize = s.parse().unwrap();
+                if case.busy(i) {
+                    return "busy".into();
+                }
                 let before = keyset(&case.mem(i));
                 case.stores[i].perform_cleanup();
                 let after = case.mem(i);
@@ -661,6 +770,9 @@ fn exec(case: &mut Case, dir: &PathBuf, line: &str, out: &mut Out) -> (String, S
             }
             ["flush", s, b] => {
                 let i: usize = s.parse().unwrap();
+                if case.busy(i) {
+                    return "busy".into();
+                }
                 let with_cleanup = *b != "0";
                 let mem_before = case.mem(i);
                 let raw_before = read_raw(&case.path);
@@ -795,31 +907,52 @@ fn exec(case: &mut Case, dir: &PathBuf, line: &str, out: &mut Out) -> (String, S
                 }));
                 outl
             }
-            ["wfault", s] | ["ffault", s] => {
+            ["wfault", s] | ["ffault", s] | ["ffault", s, _] => {
                 // the same save with every write to a regular file failing (RLIMIT_FSIZE = 0, SIGXFSZ ignored so the
-                // write returns EFBIG — a full disk / quota): the save must report the error and the cache file must be
-                // exactly what it was (atomic replacement: a failed save never replaces a good file)
+                // write returns EFBIG — a full disk / quota): the save must report the error, the cache file must be
+                // exactly what it was (atomic replacement: a failed save never replaces a good file), and so must the
+                // store's memory (a failed flush must not leave the merge `memory ∪ file` behind: unbounded, and merged
+                // a second time by the next attempt)
                 let i: usize = s.parse().unwrap();
+                if case.busy(i) {
+                    return "busy".into();
+                }
                 let raw_before = read_raw(&case.path);
+                let mem_before = case.mem(i);
                 let flush = ws[0] == "ffault";
+                let with_cleanup = flush && w.len() == 3 && w[2] != "0";
                 let mut old = libc::rlimit { rlim_cur: 0, rlim_max: 0 };
                 let r = unsafe {
                     libc::signal(libc::SIGXFSZ, libc::SIG_IGN);
                     libc::getrlimit(libc::RLIMIT_FSIZE, &mut old);
                     let lim = libc::rlimit { rlim_cur: 0, rlim_max: old.rlim_max };
                     libc::setrlimit(libc::RLIMIT_FSIZE, &lim);
-                    let r = if flush { case.stores[i].sync_and_flush_to_disk(false).is_ok() } else { case.stores[i].write().is_ok() };
+                    let r = if flush { case.stores[i].sync_and_flush_to_disk(with_cleanup).is_ok() } else { case.stores[i].write().is_ok() };
                     libc::setrlimit(libc::RLIMIT_FSIZE, &old);
                     r
                 };
                 let raw_after = read_raw(&case.path);
+                let mem_after = case.mem(i);
                 let loads = case.load().is_some();
                 let (b, a) = (raw_before.show(), raw_after.show());
                 let was_loadable = matches!(raw_before, RawFile::Data(_));
                 let disabled = case.disabled[i];
                 let a2 = a.clone();
+                let outl = format!("{} m={} n={} f={a}", if r { "ok" } else { "err" }, show_cache(&mem_after), case.stores[i].peer_count());
+                if flush {
+                    // (only the unrepaired shape shows an eviction here: it left the merge in memory)
+                    let mut ev: BTreeSet<u64> = keyset(&mem_before).union(&raw_before.peers()).cloned().collect();
+                    for p in keyset(&mem_after) {
+                        ev.remove(&p);
+                    }
+                    full = format!("{full} {} h:{}", show_choice(&ev), fnv64(&outl));
+                    if matches!(raw_before, RawFile::Data(ref d) if !d.is_empty()) && !mem_before.is_empty() {
+                        out.count("ffault:memory-and-file-both-non-empty");
+                    }
+                }
+                let (mb, ma) = (mem_before.clone(), mem_after.clone());
                 orc_jobs.push(Box::new(move |o, _| {
-                    if disabled {
+                    if disabled && flush {
                         return;
                     }
                     if r {
@@ -831,11 +964,203 @@ fn exec(case: &mut Case, dir: &PathBuf, line: &str, out: &mut Out) -> (String, S
                     if was_loadable && !loads {
                         o.fail("atomic-replace", "a failed save left a cache file that no longer loads".into());
                     }
+                    if ma != mb {
+                        o.fail("failed-save-keeps-memory", format!("a failed save changed the store's memory from {} to {}", show_cache(&mb), show_cache(&ma)));
+                    }
                 }));
-                format!("{} f={a}", if r { "ok" } else { "err" })
+                outl
+            }
+            ["pswap", s, t] => {
+                // the periodic save of ant-networking/src/driver.rs, the same calls in the same order (rs2lean checks the
+                // order in driver.rs): `config = cache.config().clone(); old_cache = cache.clone(); cache = new(config)`;
+                // slot t receives `old_cache`, which the spawned task then flushes (`flush t 1` / `ffault t 1` /
+                // `fbegin t 1` … `fend t 1` when spawned tasks overlap)
+                let (i, j): (usize, usize) = (s.parse().unwrap(), t.parse().unwrap());
+                if i == j || i >= case.stores.len() || j >= case.stores.len() || case.busy(i) || case.busy(j) {
+                    return "busy".into();
+                }
+                let bootstrap_cache = &mut case.stores[i];
+                let config = bootstrap_cache.config().clone();
+                let old_cache = bootstrap_cache.clone();
+                let new = match BootstrapCacheStore::new(config) {
+                    Ok(new) => new,
+                    Err(_) => return "err new".into(),
+                };
+                *bootstrap_cache = new;
+                let before = case.mem(j);
+                let _ = before;
+                case.stores[j] = old_cache;
+                case.disabled[j] = case.disabled[i];
+                let (mi, mj) = (case.mem(i), case.mem(j));
+                out.count(if mj.is_empty() { "pswap:empty-interval" } else { "pswap:peers-in-interval" });
+                let live_empty = case.stores[i].peer_count() == 0;
+                orc_jobs.push(Box::new(move |o, _| {
+                    if !live_empty {
+                        o.fail("periodic-swap", "the live store does not continue empty after the periodic swap".into());
+                    }
+                }));
+                format!("m={} n={} | m={} n={}", show_cache(&mi), case.stores[i].peer_count(), show_cache(&mj), case.stores[j].peer_count())
+            }
+            ["fbegin", s, b] => {
+                // store s starts `sync_and_flush_to_disk(b)` in its own thread and is stopped at its first clock read:
+                // after its load half, before its commit half (see the gate on clock_gettime)
+                let i: usize = s.parse().unwrap();
+                if i >= case.stores.len() || i >= MAXS || case.busy(i) {
+                    return "busy".into();
+                }
+                let with_cleanup = *b != "0";
+                let mem_before = case.mem(i);
+                let raw_at_begin = read_raw(&case.path);
+                let mut st = case.stores[i].clone();
+                GATE_PAUSED[i].store(false, Ordering::SeqCst);
+                GATE_RELEASE[i].store(false, Ordering::SeqCst);
+                let handle = std::thread::spawn(move || {
+                    // the harness-wide subscriber stamps every log event with the wall clock; in this thread events are
+                    // still formatted (TRACE, arguments evaluated) but without a time stamp, so that the first clock read is
+                    // the code's own
+                    let sub = tracing_subscriber::fmt().without_time().with_max_level(tracing::Level::TRACE).with_writer(std::io::sink).finish();
+                    GATED.with(|g| g.set(i + 1));
+                    let r = tracing::subscriber::with_default(sub, || catch_unwind(AssertUnwindSafe(|| st.sync_and_flush_to_disk(with_cleanup).is_ok())));
+                    GATED.with(|g| g.set(0));
+                    (st, matches!(r, Ok(true)))
+                });
+                let paused = loop {
+                    if GATE_PAUSED[i].load(Ordering::SeqCst) {
+                        break true;
+                    }
+                    if handle.is_finished() {
+                        break false;
+                    }
+                    std::thread::yield_now();
+                };
+                if paused {
+                    case.inflight[i] = Some(InFlight { handle, with_cleanup, mem_before, raw_at_begin });
+                    out.count("fbegin:paused-between-load-and-commit");
+                    full = format!("{full} z:1");
+                    "paused".into()
+                } else {
+                    // no clock read at all: cache writing disabled, or nothing loadable and nothing to clean — the flush ran
+                    // to its end
+                    let (st, ok) = handle.join().expect("flush thread");
+                    case.stores[i] = st;
+                    let raw_after = read_raw(&case.path);
+                    let mut ev: BTreeSet<u64> = keyset(&mem_before).union(&raw_at_begin.peers()).cloned().collect();
+                    for p in raw_after.peers() {
+                        ev.remove(&p);
+                    }
+                    out.count("fbegin:ran-to-completion");
+                    full = format!("{full} z:0 {}", show_choice(&ev));
+                    let disabled = case.disabled[i];
+                    orc_jobs.push(Box::new(move |o, _| {
+                        if !ok {
+                            o.fail("flush-ok", "sync_and_flush_to_disk returned an error".into());
+                        }
+                        if !disabled && !with_cleanup {
+                            if let RawFile::Data(after) = &raw_after {
+                                for (p, l) in &mem_before {
+                                    for a in l {
+                                        if !after.get(p).map(|x| x.iter().any(|y| y.ma == a.ma)).unwrap_or(false) {
+                                            o.fail("merge-keeps-memory", format!("peer {p} address {} was in memory before the flush and is not in the file after it", a.ma));
+                                        }
+                                    }
+                                }
+                            }
+                        }
+                        let _ = &raw_at_begin;
+                    }));
+                    format!("done m={} n={} f={}", show_cache(&case.mem(i)), case.stores[i].peer_count(), read_raw(&case.path).show())
+                }
+            }
+            ["fend", s, b] => {
+                // the stopped flush of store s runs its commit half now
+                let i: usize = s.parse().unwrap();
+                let Some(fl) = case.inflight.get_mut(i).and_then(|x| x.take()) else {
+                    return "idle".into();
+                };
+                if fl.with_cleanup != (*b != "0") {
+                    case.inflight[i] = Some(fl);
+                    return "bad-op".into();
+                }
+                let with_cleanup = fl.with_cleanup;
+                let raw_before = read_raw(&case.path);
+                let pre_load = case.load();
+                GATE_RELEASE[i].store(true, Ordering::SeqCst);
+                let (st, ok) = fl.handle.join().expect("flush thread");
+                case.stores[i] = st;
+                let raw_after = read_raw(&case.path);
+                let outl = format!("m={} n={} f={}", show_cache(&case.mem(i)), case.stores[i].peer_count(), raw_after.show());
+                let mut ev: BTreeSet<u64> = keyset(&fl.mem_before).union(&fl.raw_at_begin.peers()).cloned().collect();
+                for p in raw_after.peers() {
+                    ev.remove(&p);
+                }
+                full = format!("{full} {} h:{}", show_choice(&ev), fnv64(&outl));
+                let interleaved = fl.raw_at_begin.show() != raw_before.show();
+                out.count(if interleaved { "fend:file-changed-since-the-load-half" } else { "fend:file-unchanged-since-the-load-half" });
+                let ties = case.ties;
+                let replay = case.replay;
+                let mem_before = fl.mem_before;
+                let begin_peers = fl.raw_at_begin.peers();
+                let mut lost_known = 0u64;
+                // the clause of the open finding, evaluated here so that the random run can count it
+                let mut lost: Vec<String> = vec![];
+                if let (RawFile::Data(after), Some(pl)) = (&raw_after, &pre_load) {
+                    let no_evict = raw_before.peers().len() <= case.max_peers && !ties;
+                    let all_peers: BTreeSet<u64> = keyset(&mem_before).union(&raw_before.peers()).cloned().collect::<BTreeSet<u64>>().union(&begin_peers).cloned().collect();
+                    if no_evict {
+                        for (p, l) in pl {
+                            for a in l {
+                                let n_addrs = l.len() + mem_before.get(p).map(|x| x.len()).unwrap_or(0);
+                                let fresh = a.fail <= a.succ && a.seen <= case.now && case.now - a.seen < case.expiry;
+                                let must = !with_cleanup || (fresh && all_peers.len() <= case.max_peers && n_addrs <= case.max_addrs);
+                                if must && !after.get(p).map(|x| x.iter().any(|y| y.ma == a.ma)).unwrap_or(false) {
+                                    lost.push(format!("peer {p} address {} was loadable from the file when the flush committed and is not in the file after it", a.ma));
+                                }
+                            }
+                        }
+                    }
+                }
+                if interleaved && !replay {
+                    lost_known = lost.len() as u64;
+                    lost.clear();
+                }
+                if lost_known > 0 {
+                    out.count_n("known:K-c18-interleaved-flush-loses-peers:addresses-lost", lost_known);
+                }
+                orc_jobs.push(Box::new(move |o, c| {
+                    if !ok {
+                        o.fail("flush-ok", "sync_and_flush_to_disk returned an error".into());
+                    }
+                    let after = match &raw_after {
+                        RawFile::Data(d) => d.clone(),
+                        _ => {
+                            o.fail("file-loadable", format!("after a flush the file is {}", raw_after.show()));
+                            return;
+                        }
+                    };
+                    for l in lost {
+                        o.fail("merge-keeps-file", l);
+                    }
+                    if !with_cleanup {
+                        for (p, l) in &mem_before {
+                            for a in l {
+                                if !after.get(p).map(|x| x.iter().any(|y| y.ma == a.ma)).unwrap_or(false) {
+                                    o.fail("merge-keeps-memory", format!("peer {p} address {} was in memory before the merge and is not in the file after it", a.ma));
+                                }
+                            }
+                        }
+                    } else {
+                        o.cleaned("file after flush with clean-up", &after, c);
+                        o.bounds("file after flush with clean-up", &after, after.len(), c);
+                    }
+                    o.wellformed("file after flush", &after, c);
+                }));
+                outl
             }
             ["write", s] => {
                 let i: usize = s.parse().unwrap();
+                if case.busy(i) {
+                    return "busy".into();
+                }
                 let r = case.stores[i].write();
                 let raw = read_raw(&case.path);
                 let saved = case.mem(i);
@@ -950,15 +1275,29 @@ fn exec(case: &mut Case, dir: &PathBuf, line: &str, out: &mut Out) -> (String, S
                     local: has('l'),
                     disable_mainnet_contacts: true,
                     ignore_cache: has('i'),
-                    bootstrap_cache_dir: if has('d') { Some(case.dir.clone()) } else { None },
+                    // D = a regular file, U = cannot be created, M = missing but creatable (then holds no cache file)
+                    bootstrap_cache_dir: if has('D') {
+                        Some(case.decoy.clone())
+                    } else if has('U') {
+                        Some(case.decoy.join("sub"))
+                    } else if has('M') {
+                        let _ = std::fs::remove_dir_all(case.dir.join("fresh-dir"));
+                        Some(case.dir.join("fresh-dir"))
+                    } else if has('d') {
+                        Some(case.dir.clone())
+                    } else {
+                        None
+                    },
                 };
-                let config = if has('d') { case.cfg().with_cache_path(&case.decoy) } else { case.cfg() };
-                let raw = read_raw(&case.path);
+                let config = if has('d') || has('D') || has('U') || has('M') { case.cfg().with_cache_path(&case.decoy) } else { case.cfg() };
+                let raw = if has('M') { RawFile::Absent } else { read_raw(&case.path) };
                 let (outl, res) = call_startup(&args, &config, count, &env);
+                let _ = std::fs::remove_dir_all(case.dir.join("fresh-dir"));
                 // the same call with the cache file out of the way
                 let hidden = case.dir.join("hidden-cache-file");
                 let moved = std::fs::rename(&case.path, &hidden).is_ok();
                 let (out0, _) = call_startup(&args, &config, count, &env);
+                let _ = std::fs::remove_dir_all(case.dir.join("fresh-dir"));
                 if moved {
                     std::fs::rename(&hidden, &case.path).expect("put the cache file back");
                 }
@@ -1054,7 +1393,8 @@ fn exec(case: &mut Case, dir: &PathBuf, line: &str, out: &mut Out) -> (String, S
             ["race", seed, writers, iters] => {
                 let saved = FAKE_NOW.load(Ordering::SeqCst);
                 let nw: u64 = writers.parse().unwrap();
-                let (loads, bad, werrs) = run_race(dir, seed.parse().unwrap(), nw, iters.parse().unwrap());
+                let (loads, bad, werrs, lost) = run_race(dir, seed.parse().unwrap(), nw, iters.parse().unwrap());
+                out.count_n("known:K-c18-interleaved-flush-loses-peers:peers-lost-in-threaded-races", lost);
                 FAKE_NOW.store(saved, Ordering::SeqCst);
                 orc_jobs.push(Box::new(move |o, _| {
                     if bad > 0 {
@@ -1086,6 +1426,9 @@ fn exec(case: &mut Case, dir: &PathBuf, line: &str, out: &mut Out) -> (String, S
     }
     if w.first().map(|s| *s != "craft" && *s != "race").unwrap_or(false) && outl != "panic" {
         for i in 0..case.stores.len() {
+            if case.busy(i) {
+                continue;
+            }
             let m = case.mem(i);
             let n = case.stores[i].peer_count();
             o.bounds(&format!("memory of store {i}"), &m, n, case);
@@ -1298,6 +1641,107 @@ fn gen_case(rng: &mut Rng, case: &mut Case, dir: &PathBuf, out: &mut Out, budget
     let mut last_write_corrupt = false;
     for _ in 0..len {
         let s = rng.below(n);
+        if rng.chance(1, 9) {
+            // round-6 families: failing writes, interleaved flushes (two stores / a foreign writer in between), the periodic
+            // save of driver.rs (also with overlapping spawned flushes), unusable cache-directory arguments
+            let t = (s + 1 + rng.below(n.max(2) - 1)) % n.max(1);
+            let addp = |rng: &mut Rng| format!("i4:{},u:{},q,p:{}", rng.below(2), rng.below(2), rng.below(peers));
+            match rng.below(10) {
+                0 | 1 => {
+                    if rng.chance(1, 2) {
+                        run(case, format!("tick {}", 2 * rng.range(1, 2)), out, budget);
+                        run(case, format!("add {s} {}", addp(rng)), out, budget);
+                    }
+                    if rng.chance(1, 4) {
+                        run(case, format!("wfault {s}"), out, budget);
+                    } else {
+                        run(case, format!("ffault {s} {}", rng.below(2)), out, budget);
+                    }
+                    if rng.chance(1, 2) {
+                        run(case, format!("flush {s} {}", rng.below(2)), out, budget);
+                    }
+                }
+                2..=5 => {
+                    // store s is stopped between the halves of its flush while others act
+                    let ws = rng.below(2);
+                    run(case, format!("tick {}", 2 * rng.range(1, 2)), out, budget);
+                    run(case, format!("add {s} {}", addp(rng)), out, budget);
+                    run(case, format!("fbegin {s} {ws}"), out, budget);
+                    let mut open_t: Option<u64> = None;
+                    for _ in 0..rng.range(1, 3) {
+                        if n >= 2 && rng.chance(3, 4) {
+                            if open_t.is_some() {
+                                continue;
+                            }
+                            run(case, format!("tick {}", 2 * rng.range(1, 2)), out, budget);
+                            run(case, format!("add {t} {}", addp(rng)), out, budget);
+                            match rng.below(4) {
+                                0 => run(case, format!("write {t}"), out, budget),
+                                1 => {
+                                    let wt = rng.below(2);
+                                    run(case, format!("fbegin {t} {wt}"), out, budget);
+                                    open_t = Some(wt);
+                                }
+                                _ => run(case, format!("flush {t} {}", rng.below(2)), out, budget),
+                            }
+                        } else if rng.chance(1, 2) {
+                            let f = gen_file(rng, case, peers, true, false);
+                            run(case, format!("file {f}"), out, budget);
+                        } else {
+                            run(case, format!("tick {}", 2 * *rng.pick(&[1u64, 2, e / 2 + 1])), out, budget);
+                        }
+                    }
+                    if let (Some(wt), true) = (open_t, rng.chance(1, 2)) {
+                        run(case, format!("fend {t} {wt}"), out, budget);
+                        open_t = None;
+                    }
+                    run(case, format!("fend {s} {ws}"), out, budget);
+                    if let Some(wt) = open_t {
+                        run(case, format!("fend {t} {wt}"), out, budget);
+                    }
+                    run(case, "load".into(), out, budget);
+                }
+                6 | 7 if n >= 2 => {
+                    // periodic save: swap, then the spawned flush (succeeds / fails / overlaps the next one)
+                    run(case, format!("tick {}", 2 * rng.range(1, 2)), out, budget);
+                    run(case, format!("add {s} {}", addp(rng)), out, budget);
+                    run(case, format!("pswap {s} {t}"), out, budget);
+                    match rng.below(4) {
+                        0 => run(case, format!("ffault {t} 1"), out, budget),
+                        1 if n >= 3 => {
+                            let u = (0..n).find(|x| *x != s && *x != t).unwrap();
+                            run(case, format!("fbegin {t} 1"), out, budget);
+                            run(case, format!("tick {}", 2 * rng.range(1, 2)), out, budget);
+                            run(case, format!("add {s} {}", addp(rng)), out, budget);
+                            run(case, format!("pswap {s} {u}"), out, budget);
+                            run(case, format!("fbegin {u} 1"), out, budget);
+                            if rng.chance(1, 2) {
+                                run(case, format!("fend {t} 1"), out, budget);
+                                run(case, format!("fend {u} 1"), out, budget);
+                            } else {
+                                run(case, format!("fend {u} 1"), out, budget);
+                                run(case, format!("fend {t} 1"), out, budget);
+                            }
+                        }
+                        _ => run(case, format!("flush {t} 1"), out, budget),
+                    }
+                    run(case, "load".into(), out, budget);
+                }
+                8 => {
+                    let mode = *rng.pick(&["D", "U", "Df", "Ul", "Dl", "Uf"]);
+                    run(case, format!("mk {s} {mode}"), out, budget);
+                }
+                _ => {
+                    let fl = *rng.pick(&["D", "U", "M", "Di", "Uf", "Ml", "D", "U", "M"]);
+                    let cnt = *rng.pick(&["-", "-", "0", "1", "2"]);
+                    let na = *rng.pick(&[0u64, 1, 1, 2]);
+                    let args: Vec<String> = (0..na).map(|_| gen_ma(rng, peers)).collect();
+                    let j = |v: &Vec<String>| if v.is_empty() { "-".to_string() } else { v.join("+") };
+                    run(case, format!("start {fl} {cnt} {} -", j(&args)), out, budget);
+                }
+            }
+            continue;
+        }
         match rng.below(100) {
             0..=34 => {
                 run(case, format!("tick {}", 2 * *rng.pick(&[1u64, 1, 1, 2, 3, e / 2 + 1])), out, budget);
@@ -1391,6 +1835,8 @@ fn main() {
         ties: false,
         history: vec![],
         used_odd: BTreeSet::new(),
+        inflight: vec![None],
+        replay: args.replay.is_some(),
     };
     set_now(T0);
     case.write_decoy();
@@ -1435,6 +1881,18 @@ fn main() {
             // buffered the output and dropped the flush error before the atomic commit)
             "cfg 3 3 100 1", "tick 2", "add 0 i4:1,u:1,q,p:1", "flush 0 0", "load", "tick 2", "add 0 i4:1,u:1,q,p:2", "wfault 0", "load",
             "ffault 0", "load", "flush 0 0", "load",
+            // a failed flush leaves the store's memory as it was (audit C18-2: the merge memory ∪ file stayed behind — two
+            // peers in a store limited to one — and was merged with the file again by the next attempt)
+            "cfg 1 2 100 1", "tick 2", "add 0 i4:1,u:1,q,p:1", "flush 0 0", "tick 2", "add 0 i4:1,u:1,q,p:2", "ffault 0 0", "wfault 0", "flush 0 0", "load",
+            "cfg 3 3 100 1", "tick 2", "add 0 i4:1,u:1,q,p:1", "flush 0 0", "tick 2", "add 0 i4:1,u:1,q,p:1", "ffault 0 1", "flush 0 1", "load",
+            // a flush stopped between its halves while nothing else writes: same as an uninterrupted flush
+            "cfg 5 3 100 2", "tick 2", "add 0 i4:1,u:1,q,p:1", "flush 0 0", "tick 2", "add 0 i4:1,u:1,q,p:2", "fbegin 0 0", "tick 2", "add 1 i4:1,u:1,q,p:3", "fend 0 0", "load",
+            // the periodic save of driver.rs: swap, spawned flush with clean-up; a failing one (only logged: the interval's peers
+            // are dropped with the task's store)
+            "cfg 5 3 100 2", "tick 2", "add 0 i4:1,u:1,q,p:1", "pswap 0 1", "flush 1 1", "tick 2", "add 0 i4:1,u:1,q,p:2", "pswap 0 1", "ffault 1 1", "pswap 0 1", "flush 1 1", "load",
+            // an unusable --bootstrap-cache-dir: refused at store construction and at the cache step of get_bootstrap_addr
+            "cfg 3 3 100 1", "tick 2", "add 0 i4:1,u:1,q,p:1", "flush 0 1", "mk 0 D", "mk 0 Uf", "start D - i4:1,u:1,q,p:7 -", "start U 5 - -", "start M - i4:1,u:1,q,p:7 -",
+            "start Di - i4:1,u:1,q,p:7 -", "start D 1 i4:1,u:1,q,p:7 -", "load",
             "cfg 50 6 86400 3", "race 1 3 40",
         ];
         let mut budget = args.n as i64;
